@@ -1047,6 +1047,7 @@ def gen_tables(ctx):
     ctx.obligation("whitespace: str.isspace set == regex \\s set (one is_ws oracle serves strip() and _RE_WS)", ws == re_ws,
                    f"{len(ws)} vs {len(re_ws)}")
     tags = [
+        ("s \"w:sdt\"", D.W_SDT), ("s \"w:sdtContent\"", D.W_SDT_CONTENT), ("s \"w:customXml\"", D.W_CUSTOM_XML),
         ("W_P", D.W_P), ("W_T", D.W_T), ("W_TBL", D.W_TBL), ("W_TR", D.W_TR), ("W_TC", D.W_TC),
         ("A_GRAPHICDATA", P.A_GRAPHICDATA), ("A_TBL", P.A_TBL), ("A_TR", P.A_TR), ("A_TC", P.A_TC), ("A_TXBODY", P.A_TXBODY),
         ("A_P", P.A_P), ("A_R", P.A_R), ("A_FLD", P.A_FLD), ("A_BR", P.A_BR), ("A_T", P.A_T), ("P_GRAPHICFRAME", P.P_GRAPHICFRAME),
@@ -1903,7 +1904,7 @@ def run(ctx):
 
     ok1, _ = ctx.prove("C13/Props.v", timeout=400, deps=["C13/ProofsHtml.vo", "C13/ProofsOds.vo", "C13/ProofsSheets.vo", "C13/ProofsTree.vo", "C13/ProofsRtf.vo", "C13/ProofsOrder.vo", "C13/ProofsRows.vo", "C13/ProofsPos.vo", "C13/ProofsPptx.vo"],
                        expected=["C13_get_dim_is_shape", "C13_get_dim_rect", "C13_xls_get_dim_is_shape",
-                                 "C13_docx_tables_flat", "C13_docx_adjacent", "C13_docx_tables_preorder", "C13_docx_toplevel_refuted",
+                                 "C13_docx_tables_flat", "C13_docx_adjacent", "C13_docx_tables_preorder", "C13_docx_toplevel_refuted", "C13_docx_table_wrapped_eq", "C13_docx_row_cells_wrapped", "C13_docx_tables_body_wrapped", "C13_docx_tables_direct_lost_wrapped",
                                  "C13_pptx_table_roundtrip", "C13_odt_tables_flat", "C13_odt_nested_refuted", "C13_odp_table_flat", "C13_odp_cell_comment_skipped",
                                  "C13_html_tables_roundtrip", "C13_html_adjacent", "C13_html_nested_refuted", "C13_html_multipara_refuted",
                                  "C13_epub_tables_roundtrip", "C13_epub_nested_refuted",
@@ -1917,7 +1918,7 @@ def run(ctx):
                                  "C13_pptx_slide_tables_perm", "C13_stable_sort_le_sorted_id",
                                  "C13_deck_tables_perm", "C13_deck_tables_source_order", "C13_slide_tables_same_position",
                                  "C13_rtf_tables_single", "C13_rtf_tables_single_gen", "C13_rtf_pad_rows_id", "C13_rtf_tables_long_separator", "C13_rtf_adjacent_tables_merged_refuted", "C13_rtf_get_dim",
-                                 "C13_xls_sheet_partial", "C13_xls_duplicate_header_refuted",
+                                 "C13_xls_sheet_partial", "C13_xls_sheets_independent", "C13_xls_duplicate_header_refuted",
                                  "C13_xls_header_only_refuted"])
     ctx.prove("C13/Inst.v", timeout=300, deps=["Gen/C13Tables.vo", "C13/Corr.vo", "C13/Witness.vo"], expected=["C13_live_tags_match"])
     ctx.prove("C13/InstRemove.v", timeout=300, deps=["Gen/C13Tables.vo"], expected=["C13_remove_tags_match", "C13_void_remove_tags_match"])
@@ -1960,6 +1961,39 @@ def run(ctx):
         check_dims(ctx, "docx", tabs, dims, dim_cases)
         b_docx_t.add(f"({coq_nd(tree)}, {coq_tables(tabs)})", ("docxtree", nd_xml(body)))
         ctx.case(("docxtree", nd_xml(body)), any(tabs), "docx:extra")
+    # the structured documents again, with tables / rows / cells (and paragraphs) put inside content controls or w:customXml
+    def docx_wrap(nd, depth=0):
+        kind = rng.choice(["sdt", "sdt", "cx", "sdt2"])
+        if kind == "cx":
+            return E("w:customXml", [E("w:customXmlPr"), nd], attrs=[("w:element", "x")])
+        inner = E("w:sdtContent", [nd if kind == "sdt" else E("w:customXml", [nd])])
+        return E("w:sdt", [E("w:sdtPr", [E("w:alias")]), inner])
+    def docx_wrap_some(parent, tags, p):
+        out = []
+        for c in parent.children:
+            if c.tag == "w:tbl":
+                for tr in c.children:
+                    if tr.tag == "w:tr":
+                        tr.children = [docx_wrap(tc) if (tc.tag == "w:tc" and rng.random() < p) else tc for tc in tr.children]
+                c.children = [docx_wrap(tr) if (tr.tag == "w:tr" and rng.random() < p) else tr for tr in c.children]
+            out.append(docx_wrap(c) if (c.tag in tags and rng.random() < p) else c)
+        # sometimes several consecutive blocks share one wrapper
+        if len(out) > 1 and rng.random() < 0.4:
+            k = rng.randrange(len(out) - 1)
+            out[k:k + 2] = [E("w:sdt", [E("w:sdtPr"), E("w:sdtContent", out[k:k + 2])])]
+        parent.children = out
+    set_selfclose("never")
+    for i in range(n // 2):
+        d = rdoc(rng, False, ragged=(i % 5 == 0))
+        body = docx_r_body(d)
+        docx_wrap_some(body, ("w:tbl", "w:p"), 0.5)
+        tree, tabs, dims = docx_run(docx_file(body))
+        check_dims(ctx, "docx", tabs, dims, dim_cases)
+        b_docx_t.add(f"({coq_nd(tree)}, {coq_tables(tabs)})", ("docxwrap", nd_xml(body)))
+        ctx.case(("docxwrap", nd_xml(body)), any(tabs), "docx:wrapped")
+        if tabs != spec_top(d):
+            ctx.finding("docx-wrapped-table-content-lost", f"DOCX: tables / rows / cells inside w:sdt or w:customXml are not all returned: got {tabs!r} want {spec_top(d)!r}",
+                        {"format": "docx", "body_xml": nd_xml(body), "got": tabs, "want": spec_top(d)})
     # content-control wrapped table (block-level w:sdt), as Word writes it for repeating sections / building blocks
     sdt_body = E("w:body", [E("w:sdt", [E("w:sdtContent", [docx_r_ftable([[[["in sdt"]]]])])]), docx_r_para(["after"])])
     tree, tabs, dims = docx_run(docx_file(sdt_body))
@@ -2307,6 +2341,7 @@ def run(ctx):
     b_xls = batch("xls", "corr_xls", "list (list lcell) * list (list val) * (nat * nat)")
     import xlrd
     from xlrd.sheet import Cell
+    b_xls_wb = batch("xlswb", "corr_xls_wb", "list (list (list lcell)) * list (list (list val))")
     for i in range(n // 2):
         # a workbook of 1-3 sheets; later sheets often repeat the header texts of the first (one sheet per month/region)
         wb = []
@@ -2319,6 +2354,8 @@ def run(ctx):
                 g[0] = [Cell(wb[0][0][j].ctype, wb[0][0][j].value) if j < len(wb[0][0]) else xls_cells(rng) for j in range(c)]
             wb.append(g)
         per, tabs, dims = xls_run(wb)
+        b_xls_wb.add("(" + coq_list([coq_list([coq_list([f"{{| lc_native := {coq_val(nv)}; lc_header := {coq_str(hs)} |}}" for nv, hs in row]) for row in pg]) for pg in per])
+                     + ", " + coq_list([coq_vgrid(t) for t in tabs]) + ")", ("xlswb", repr(per)))
         for si, (pg, t, dm) in enumerate(zip(per, tabs, dims)):
             b_xls.add("(" + coq_list([coq_list([f"{{| lc_native := {coq_val(nv)}; lc_header := {coq_str(hs)} |}}" for nv, hs in row]) for row in pg])
                       + f", {coq_vgrid(t)}, ({dm[0]}%nat, {dm[1]}%nat))", ("xls", si, repr(per)))
